@@ -8,11 +8,15 @@ structure Core (cfg : Conf) (s : St) : Prop where
   inv : Inv cfg s
   shape : ¬ s.crashed → s.positions.length = s.moves.length + 1
 
+/-- a thinker that is not parked was started on a position that is not over -/
+def Parked (s : St) : Prop := s.cur.st ≠ .idle → s.cur.pos.gameOver.1 = false
+
 /-- the inductive invariant: while the loop listens to its thinker, that thinker was started on the
 current position and it is the bot's turn there -/
 structure SInv (cfg : Conf) (s : St) : Prop where
   core : Core cfg s
   listen : s.status = .running → s.listening = true → s.cur.pos = s.p ∧ s.p.toMove = cfg.color
+  parked : Parked s
 
 theorem not_crashed_of_running {s : St} (h : s.status = .running) : ¬ s.crashed := by
   rintro ⟨e, he⟩; rw [h] at he; cases he
@@ -35,17 +39,23 @@ theorem Core.congr {cfg : Conf} {s t : St} (h : Core cfg s)
     simpa [h1, h2] using this
 
 theorem sinv_spawn {cfg : Conf} {s : St} (h : Core cfg s) : SInv cfg (spawn cfg s) := by
-  refine ⟨h.congr rfl rfl rfl rfl rfl rfl rfl rfl, ?_⟩
-  intro _ hl
-  have : s.p.toMove = cfg.color := by simpa [spawn] using hl
-  exact ⟨rfl, this⟩
+  refine ⟨h.congr rfl rfl rfl rfl rfl rfl rfl rfl, ?_, ?_⟩
+  · intro _ hl
+    have : s.p.toMove = cfg.color := by simpa [spawn] using hl
+    exact ⟨rfl, this⟩
+  · intro hi
+    simp only [spawn] at hi ⊢
+    cases ho : s.p.gameOver.1 with
+    | false => rfl
+    | true => simp [ho] at hi
 
 theorem sinv_retFalse {cfg : Conf} {s : St} (h : Core cfg s) : SInv cfg (retFalse cfg s) := by
   unfold retFalse
   exact sinv_spawn (h.congr rfl rfl rfl rfl rfl rfl rfl rfl)
 
-theorem sinv_of_core_not_running {cfg : Conf} {s : St} (h : Core cfg s) (hs : s.status ≠ .running) : SInv cfg s :=
-  ⟨h, fun hr => absurd hr hs⟩
+theorem sinv_of_core_not_running {cfg : Conf} {s : St} (h : Core cfg s) (hs : s.status ≠ .running)
+    (hp : Parked s) : SInv cfg s :=
+  ⟨h, fun hr => absurd hr hs, hp⟩
 
 /-- a state whose loop is gone but whose record, log and transmissions are those of `s` -/
 theorem core_ended {cfg : Conf} {s t : St} (h : Core cfg s) (hr : s.status = .running)
@@ -64,8 +74,9 @@ theorem core_ended {cfg : Conf} {s t : St} (h : Core cfg s) (hr : s.status = .ru
     have := h.shape hn
     simpa [h1, h2] using this
 
-theorem sinv_retTrue {cfg : Conf} {s : St} (h : Core cfg s) (hr : s.status = .running) : SInv cfg (retTrue s) := by
-  refine sinv_of_core_not_running (core_ended h hr rfl rfl rfl rfl rfl rfl rfl rfl) ?_
+theorem sinv_retTrue {cfg : Conf} {s : St} (h : Core cfg s) (hp : Parked s) (hr : s.status = .running) :
+    SInv cfg (retTrue s) := by
+  refine sinv_of_core_not_running (core_ended h hr rfl rfl rfl rfl rfl rfl rfl rfl) ?_ hp
   simp [retTrue]
 
 /-- after a panic only the log and the transmissions are still claimed -/
@@ -77,8 +88,8 @@ theorem core_crashed {cfg : Conf} {s t : St} (h : Core cfg s) (e : Err)
   · have := h.inv.logged
     simpa [sentMoves, h6, h7] using this
 
-theorem sinv_crash {cfg : Conf} {s : St} (h : Core cfg s) (e : Err) : SInv cfg (s.crash e) := by
-  refine sinv_of_core_not_running (core_crashed h e rfl rfl rfl) ?_
+theorem sinv_crash {cfg : Conf} {s : St} (h : Core cfg s) (hp : Parked s) (e : Err) : SInv cfg (s.crash e) := by
+  refine sinv_of_core_not_running (core_crashed h e rfl rfl rfl) ?_ hp
   simp [St.crash]
 
 /-- `SInv` only reads the `Core` fields, `listening` and the tag of the current thinker -/
@@ -86,11 +97,15 @@ theorem SInv.congr {cfg : Conf} {s t : St} (h : SInv cfg s)
     (h1 : t.positions = s.positions) (h2 : t.moves = s.moves) (h3 : t.p = s.p)
     (h4 : t.srvPos = s.srvPos) (h5 : t.srvMoves = s.srvMoves) (h6 : t.log = s.log)
     (h7 : t.sent = s.sent) (h8 : t.status = s.status)
-    (h9 : t.listening = s.listening) (h10 : t.cur.pos = s.cur.pos) : SInv cfg t := by
-  refine ⟨h.core.congr h1 h2 h3 h4 h5 h6 h7 h8, ?_⟩
-  intro hr hl
-  rw [h8] at hr; rw [h9] at hl; rw [h10, h3]
-  exact h.listen hr hl
+    (h9 : t.listening = s.listening) (h10 : t.cur.pos = s.cur.pos)
+    (h11 : t.cur.st ≠ .idle → s.cur.st ≠ .idle := by exact id) : SInv cfg t := by
+  refine ⟨h.core.congr h1 h2 h3 h4 h5 h6 h7 h8, ?_, ?_⟩
+  · intro hr hl
+    rw [h8] at hr; rw [h9] at hl; rw [h10, h3]
+    exact h.listen hr hl
+  · intro hi
+    rw [h10]
+    exact h.parked (h11 hi)
 
 /-- with a tracked record the ghost server's current position is `g.p` -/
 theorem srvPos_eq {s : St} (ht : RecordTracks s) : ∃ tl, s.srvPos = s.p :: tl ∧ s.positions = s.p :: tl := by
@@ -104,7 +119,7 @@ theorem srvPos_eq {s : St} (ht : RecordTracks s) : ∃ tl, s.srvPos = s.p :: tl 
 theorem sinv_onServerMove {cfg : Conf} (hf : cfg.fixed = true) {s : St} (h : SInv cfg s)
     (hr : s.status = .running) (parsed : Option Move) : SInv cfg (onServerMove cfg s parsed) := by
   cases parsed with
-  | none => exact sinv_crash h.core _
+  | none => exact sinv_crash h.core h.parked _
   | some m =>
     have hn := not_crashed_of_running hr
     have ht := h.core.inv.tracks hn
@@ -115,12 +130,12 @@ theorem sinv_onServerMove {cfg : Conf} (hf : cfg.fixed = true) {s : St} (h : SIn
     | error e =>
       have hpush : srvPush cfg s m = s := by simp [srvPush, htl, hap]
       simp only [hpush, hap]
-      exact sinv_crash h.core _
+      exact sinv_crash h.core h.parked _
     | ok q =>
       have hpush : srvPush cfg s m = { s with srvPos := q :: s.srvPos, srvMoves := m :: s.srvMoves } := by
         simp [srvPush, htl, hap]
       simp only [hpush, hap, hf]
-      refine ⟨⟨⟨?_, ?_, ?_⟩, ?_⟩, ?_⟩
+      refine ⟨⟨⟨?_, ?_, ?_⟩, ?_⟩, ?_, h.parked⟩
       · intro _
         obtain ⟨hp, hm, _⟩ := ht
         simp [RecordTracks, hp, hm]
@@ -144,7 +159,7 @@ theorem sinv_onTime {cfg : Conf} {s : St} (h : SInv cfg s) (args : List String) 
       split
       · exact sinv_retFalse (h.core.congr rfl rfl rfl rfl rfl rfl rfl rfl)
       · exact h.congr rfl rfl rfl rfl rfl rfl rfl rfl rfl rfl
-  · exact sinv_crash h.core _
+  · exact sinv_crash h.core h.parked _
 
 theorem sentMoves_append_undo (s : St) (t : St) (h : t.sent = s.sent ++ [.requestUndo]) : sentMoves t = sentMoves s := by
   simp [sentMoves, h]
@@ -152,7 +167,7 @@ theorem sentMoves_append_undo (s : St) (t : St) (h : t.sent = s.sent ++ [.reques
 theorem sinv_onRequestUndo {cfg : Conf} {s : St} (h : SInv cfg s) (accept : Bool) : SInv cfg (onRequestUndo s accept) := by
   unfold onRequestUndo
   split
-  · refine ⟨⟨⟨?_, ?_, ?_⟩, ?_⟩, ?_⟩
+  · refine ⟨⟨⟨?_, ?_, ?_⟩, ?_⟩, ?_, h.parked⟩
     · intro hn
       exact h.core.inv.tracks (by simpa [St.crashed] using hn)
     · exact h.core.inv.sends
@@ -175,10 +190,10 @@ theorem sinv_onUndo {cfg : Conf} {s : St} (h : SInv cfg s) (hr : s.status = .run
     have hpop : srvPop s = s := by simp [srvPop, hsm]
     simp only [hpop]
     cases hps : s.positions with
-    | nil => exact sinv_crash h.core _
+    | nil => exact sinv_crash h.core h.parked _
     | cons a ps =>
       simp only [hms]
-      exact sinv_of_core_not_running (core_crashed h.core _ rfl rfl rfl) (by simp [St.crash])
+      exact sinv_of_core_not_running (core_crashed h.core _ rfl rfl rfl) (by simp [St.crash]) h.parked
   | cons m ms =>
     have hsm : s.srvMoves = m :: ms := by rw [← hm, hms]
     have hpop : srvPop s = { s with srvMoves := ms, srvPos := s.srvPos.tail } := by simp [srvPop, hsm]
@@ -203,15 +218,15 @@ theorem sinv_onGameLine {cfg : Conf} (hf : cfg.fixed = true) {s : St} (h : SInv 
     (rest : List String) (parsed : Option Move) (accept : Bool) : SInv cfg (onGameLine cfg s rest parsed accept) := by
   unfold onGameLine
   split
-  · exact sinv_crash h.core _
+  · exact sinv_crash h.core h.parked _
   · split
     · exact sinv_onServerMove hf h hr parsed
     · split
-      · exact sinv_retTrue h.core hr
+      · exact sinv_retTrue h.core h.parked hr
       · split
         · split
-          · exact sinv_crash h.core _
-          · exact sinv_retTrue (h.core.congr rfl rfl rfl rfl rfl rfl rfl rfl) hr
+          · exact sinv_crash h.core h.parked _
+          · exact sinv_retTrue (h.core.congr rfl rfl rfl rfl rfl rfl rfl rfl) h.parked hr
         · split
           · exact sinv_onTime h _
           · split
@@ -232,13 +247,14 @@ theorem sinv_onLine {cfg : Conf} (hf : cfg.fixed = true) {s : St} (h : SInv cfg 
       · exact h
 
 theorem srvAccept_eq {cfg : Conf} {t : St} {m : Move} {p q : Pos} {tl : List Pos} (h1 : t.srvPos = p :: tl)
-    (hturn : p.toMove = cfg.color) (hap : p.apply cfg.basis m = .ok q) :
+    (hlive : p.gameOver.1 = false) (hturn : p.toMove = cfg.color) (hap : p.apply cfg.basis m = .ok q) :
     srvAccept cfg t m = { t with srvPos := q :: t.srvPos, srvMoves := m :: t.srvMoves } := by
-  simp [srvAccept, srvPush, h1, hturn, hap]
+  simp [srvAccept, srvPush, h1, hlive, hturn, hap]
 
 /-- `case move := <-moves` when the loop was listening to a thinker started on the current position -/
-theorem sinv_onAnswer {cfg : Conf} {s : St} (h : Core cfg s) (hr : s.status = .running)
-    (htag : s.cur.pos = s.p) (hturn : s.p.toMove = cfg.color) (m : Move) : SInv cfg (onAnswer cfg s m) := by
+theorem sinv_onAnswer {cfg : Conf} {s : St} (h : Core cfg s) (hp : Parked s) (hr : s.status = .running)
+    (htag : s.cur.pos = s.p) (hlive : s.p.gameOver.1 = false) (hturn : s.p.toMove = cfg.color) (m : Move) :
+    SInv cfg (onAnswer cfg s m) := by
   have hn := not_crashed_of_running hr
   have ht := h.inv.tracks hn
   have hlen := h.shape hn
@@ -248,11 +264,11 @@ theorem sinv_onAnswer {cfg : Conf} {s : St} (h : Core cfg s) (hr : s.status = .r
   | error e =>
     cases e with
     | illegal w => exact sinv_retFalse h
-    | panic w => exact sinv_crash h _
-    | hang w => exact sinv_crash h _
+    | panic w => exact sinv_crash h hp _
+    | hang w => exact sinv_crash h hp _
   | ok q =>
     simp only
-    rw [srvAccept_eq (p := s.p) (q := q) (tl := tl) (by exact htl) hturn hap]
+    rw [srvAccept_eq (p := s.p) (q := q) (tl := tl) (by exact htl) hlive hturn hap]
     refine sinv_retFalse ⟨⟨?_, ?_, ?_⟩, ?_⟩
     · intro _
       obtain ⟨hp, hm, _⟩ := ht
@@ -261,7 +277,7 @@ theorem sinv_onAnswer {cfg : Conf} {s : St} (h : Core cfg s) (hr : s.status = .r
       simp only [List.mem_append, List.mem_singleton] at hrm
       rcases hrm with hrm | rfl
       · exact h.inv.sends r hrm
-      · exact ⟨by simp [srvCur, htl], ⟨q, hap⟩, hturn, htag⟩
+      · exact ⟨by simp [srvCur, htl], hlive, ⟨q, hap⟩, hturn, htag⟩
     · have := h.inv.logged
       simp [sentMoves] at this ⊢
       exact this
@@ -274,6 +290,12 @@ theorem sinv_onAnswer {cfg : Conf} {s : St} (h : Core cfg s) (hr : s.status = .r
 @[simp] theorem Thinker.leave_pos (t : Thinker) (m : Move) : (t.leave m).pos = t.pos := by
   unfold Thinker.leave; split <;> rfl
 
+theorem Thinker.enter_not_idle (t : Thinker) (h : t.enter.st ≠ .idle) : t.st ≠ .idle := by
+  intro hi; apply h; unfold Thinker.enter; rw [if_neg (by rw [hi]; decide)]; exact hi
+
+theorem Thinker.leave_not_idle (t : Thinker) (m : Move) (h : (t.leave m).st ≠ .idle) : t.st ≠ .idle := by
+  intro hi; apply h; unfold Thinker.leave; rw [if_neg (by rw [hi]; decide)]; exact hi
+
 theorem sinv_grant {cfg : Conf} {s : St} (h : SInv cfg s) (k : Nat) : SInv cfg (grant s k) := by
   unfold grant
   split
@@ -281,7 +303,7 @@ theorem sinv_grant {cfg : Conf} {s : St} (h : SInv cfg s) (k : Nat) : SInv cfg (
   · split
     · exact h.congr rfl rfl rfl rfl rfl rfl rfl rfl rfl rfl
     · split
-      · exact h.congr rfl rfl rfl rfl rfl rfl rfl rfl rfl (by simp)
+      · exact h.congr rfl rfl rfl rfl rfl rfl rfl rfl rfl (by simp) (Thinker.enter_not_idle _)
       · exact h
 
 theorem sinv_aiReturns {cfg : Conf} {s : St} (h : SInv cfg s) (k : Nat) (m : Move) : SInv cfg (aiReturns cfg s k m) := by
@@ -291,11 +313,12 @@ theorem sinv_aiReturns {cfg : Conf} {s : St} (h : SInv cfg s) (k : Nat) (m : Mov
   · split
     · split
       · split
-        · rename_i hl
+        · rename_i hrun hl
           obtain ⟨htag, hturn⟩ := h.listen hl.1 hl.2
+          have hlive : s.cur.pos.gameOver.1 = false := h.parked (by rw [hrun]; decide)
           exact sinv_onAnswer (s := { s with cur := { s.cur with st := .done, cancelled := true } })
-            (h.core.congr rfl rfl rfl rfl rfl rfl rfl rfl) hl.1 htag hturn m
-        · exact h.congr rfl rfl rfl rfl rfl rfl rfl rfl rfl (by simp)
+            (h.core.congr rfl rfl rfl rfl rfl rfl rfl rfl) (fun _ => hlive) hl.1 htag (by rw [← htag]; exact hlive) hturn m
+        · exact h.congr rfl rfl rfl rfl rfl rfl rfl rfl rfl (by simp) (Thinker.leave_not_idle _ m)
       · exact h
     · exact h
 
@@ -309,7 +332,7 @@ theorem sinv_step {cfg : Conf} (hf : cfg.fixed = true) {s : St} (h : SInv cfg s)
   | close =>
     simp only [step]
     split
-    · rename_i hr; exact sinv_retTrue h.core hr
+    · rename_i hr; exact sinv_retTrue h.core h.parked hr
     · exact h
   | timerFires =>
     simp only [step]
@@ -333,7 +356,7 @@ theorem sinv_tieRun {cfg : Conf} (hf : cfg.fixed = true) {s : St} (h : SInv cfg 
 theorem sinv_start (cfg : Conf) (size : Nat) (secs : Int) : SInv cfg (start cfg size secs) := by
   unfold start
   split
-  · refine sinv_of_core_not_running ⟨⟨fun hn => absurd ⟨_, rfl⟩ hn, ?_, ?_⟩, fun hn => absurd ⟨_, rfl⟩ hn⟩ (by simp)
+  · refine sinv_of_core_not_running ⟨⟨fun hn => absurd ⟨_, rfl⟩ hn, ?_, ?_⟩, fun hn => absurd ⟨_, rfl⟩ hn⟩ (by simp) (fun h => absurd rfl h)
     · intro r hr; cases hr
     · rfl
   · refine sinv_spawn ⟨⟨?_, ?_, ?_⟩, ?_⟩
